@@ -204,7 +204,7 @@ class FakeQueue:
         if self.is_items:
             s.n_deq += 1
             s.log.append(("deq", me.proc.worker_id if me.proc else None,
-                          x.get("id") if isinstance(x, dict) else None))
+                          x.get("id") if isinstance(x, dict) else (x + 1 if isinstance(x, int) and not isinstance(x, bool) else None)))
         return x
 
     def close(self):
